@@ -59,7 +59,24 @@ def _pos_writes(fn):
     return res
 
 
+def _master_screen_file(ctx, rep):
+    """Wrapping "at the screen width": the master SCRN: file (the one PRINT writes to) must read width and column
+    from the live screen state -- SCREEN and WIDTH change them behind its back -- and only the windows opened
+    with OPEN "SCRN:" keep their own."""
+    DB = 'pcbasic/basic/devices/devicebase.py'
+    for prop, live in (('width', 'self._display.mode.width'), ('col', 'self.console.current_col')):
+        fn = ctx.fn(DB + ':SCRNFile.' + prop)
+        fl = ctx.flow(fn)
+        rets = [r for r in own_nodes(fn) if isinstance(r, ast.Return)]
+        m = [r for r in rets if fl.knows(r, 'self._is_master', True)]
+        rep.ob('wrap.master-reads-live-screen-state', 'SCRNFile.%s of the master file is %s' % (prop, live),
+               len(m) == 1 and norm(m[0].value) == live,
+               'the master screen file returns %s: the value goes stale when SCREEN changes the column count and PRINT wraps at the wrong column' % (
+                   [norm(r.value) for r in rets]), ctx.where(fn))
+
+
 def check(ctx, rep):
+    _master_screen_file(ctx, rep)
     ts = ctx.cls(TS + ':TextScreen')
     meths = class_methods(ts)
     n_writes = 0
@@ -189,6 +206,8 @@ def variants(ctx):
         return lambda tree: f(mu.find_def(tree, 'TextScreen.' + f_name))
 
     return [
+        Va('master-width-cached', 'break', 'pcbasic/basic/devices/devicebase.py',
+           lambda tree: mu.replace_expr(mu.find_def(tree, 'SCRNFile.width'), mu.text_is('self._display.mode.width'), 'self._width'), expect='wrap.master'),
         Va('set-pos-not-normalised', 'break', TS, in_fn('set_pos', lambda fn: mu.remove_stmt(fn, mu.stmt_has('self._wrap_around_and_scroll_as_needed', ast.Expr))), expect='normalised'),
         Va('write-char-no-final-wrap', 'break', TS, in_fn('write_char', _drop_last_wrap), expect='normalised'),
         Va('normaliser-no-bottom-clamp', 'break', TS,
